@@ -1167,6 +1167,12 @@ def _rule_every_node(C, events: list[Event], odd: list[str], root: str) -> tuple
     gaps = []
     for _k, (L, evs) in groups.items():
         S = {e.store or e.node for e in evs}
+        # `if n not in labels: labels[n] = <...>` completes the mapping: on the other branch the node has its label already
+        lnames = {x.value.id for e in evs for x in ast.walk(e.store or e.node) if isinstance(x, ast.Subscript) and isinstance(x.ctx, ast.Store) and isinstance(x.value, ast.Name)}
+        for st in ast.walk(L):
+            if isinstance(st, ast.If) and isinstance(st.test, ast.Compare) and len(st.test.ops) == 1 and isinstance(st.test.ops[0], ast.NotIn) and isinstance(st.test.comparators[0], ast.Name) and st.test.comparators[0].id in lnames and isinstance(L.target, ast.Name) and isinstance(st.test.left, ast.Name) and st.test.left.id == L.target.id:
+                if any(any(x is s_ for x in ast.walk(st)) for s_ in list(S)) and not st.orelse:
+                    S.add(st)
         inside = {id(x) for st in L.body for x in ast.walk(st)} | {id(x) for st in L.orelse for x in ast.walk(st)}
         starts = [m for m in cfg.g.successors(L) if True in cfg.g[L][m].get("labels", set())]
         seen, stack, leak = set(), list(starts), None
@@ -1192,6 +1198,11 @@ def _rule_every_node(C, events: list[Event], odd: list[str], root: str) -> tuple
         if leak is None:
             total = (L, evs)
         else:
+            # `if n not in labels: labels[n] = n`: the other branch means the node already has its label from an earlier pass
+            names_ = {x.id for e in evs for x in ast.walk(e.store or e.node) if isinstance(x, ast.Subscript) and isinstance(x.ctx, ast.Store) and isinstance(x.value, ast.Name) for x in [x.value]}
+            fills_rest = any(isinstance(t, ast.Compare) and len(t.ops) == 1 and isinstance(t.ops[0], (ast.In, ast.NotIn)) and isinstance(t.comparators[0], ast.Name) and t.comparators[0].id in names_ for st in L.body for t in ast.walk(st))
+            if fills_rest and len(groups) > 1 or fills_rest and any(e2.nloop is not L for e2 in events if e2.domain == "all"):
+                odd.append(f"labels are filled in several passes (`for {norm(L.target)} in {norm(L.iter, 40)}` only completes what an earlier pass left open)")
             gaps.append((L, leak))
     if total is not None:
         return ("ok", f"every node of the graph gets a label on every path through `{norm(total[0].target)} in {norm(total[0].iter, 40)}`", total[0])
